@@ -168,20 +168,35 @@ theorem jw_two_body_sound (tol : Rat) (p q r s : Nat) (c : GQ) (hok : jwTwoBodyO
       = GV.coeff (applyOp .fermion (Spec.C04.twoBodyOp p q r s c) [m]) [x] :=
   jwTwoBody_sound tol p q r s c hok m x
 
-/-- **`jordan_wigner(InteractionOperator)` is sound**: for every size `n` and every Hermitian pair of tensors
-(`one[q,p] = conj one[p,q]`, `two[s,r,q,p] = conj two[p,q,r,s]`, real or complex, no further symmetry
-assumed) the loops over index combinations with symmetrised coefficients (`_jordan_wigner_interaction_op`:
-diagonal one-body, pairs `p < q`, pairs of pairs) produce an operator that acts on every basis state like
+/-- **`jordan_wigner(InteractionOperator)` is sound**: for every size `n` and every pair of tensors that
+denotes a Hermitian operator — `one[q,p] = conj one[p,q]`, and the *antisymmetrised* two-body tensor
+`K[pq,rs] = T[p,q,r,s] − T[q,p,r,s] − T[p,q,s,r] + T[q,p,s,r]` (the only part of `T` the operator depends on)
+satisfies `K[rs,pq] = conj K[pq,rs]`; real or complex, no further symmetry, and the *stored* entries need
+not be Hermitian element by element (weight may sit on any of the antisymmetry-related entries, entries with
+`p = q` or `r = s` are arbitrary) — the loops over index combinations with symmetrised coefficients
+(`_jordan_wigner_interaction_op`: diagonal one-body, pairs `p < q`, pairs of pairs with the eight-entry
+coefficient) produce an operator that acts on every basis state like
 `const + Σ one[p,q] a†_p a_q + Σ two[p,q,r,s] a†_p a†_q a_r a_s` — i.e. like `jordan_wigner` of the equivalent
 FermionOperator (`jw_exact`) — on every exact run (`jwInteractionOpOk`: all helper calls and all outer
 `+=` exact; evaluated by the driver on every generated tensor). -/
 theorem jw_interaction_op_sound (tol : Rat) (n : Nat) (const : GQ) (one two : List GQ)
     (h1 : ∀ p q, p < n → q < n → get1 n one q p = (get1 n one p q).conj)
-    (h2 : ∀ p q r s, p < n → q < n → r < n → s < n → get2 n two s r q p = (get2 n two p q r s).conj)
+    (h2 : ∀ p q r s, p < n → q < n → r < n → s < n →
+      get2 n two r s p q - get2 n two s r p q - get2 n two r s q p + get2 n two s r q p
+        = (get2 n two p q r s - get2 n two q p r s - get2 n two p q s r + get2 n two q p s r).conj)
     (hok : jwInteractionOpOk tol n const one two = true) (m x : Nat) :
     GV.coeff (applyOp .qubit (jwInteractionOp tol n const one two) [m]) [x]
       = GV.coeff (applyOp .fermion (Spec.C04.interactionOp n const one two) [m]) [x] :=
   jwInteractionOp_sound tol n const one two h1 h2 hok m x
+
+/-- the special case of element-wise Hermitian storage (`two[s,r,q,p] = conj two[p,q,r,s]`) -/
+theorem jw_interaction_op_sound_elementwise (tol : Rat) (n : Nat) (const : GQ) (one two : List GQ)
+    (h1 : ∀ p q, p < n → q < n → get1 n one q p = (get1 n one p q).conj)
+    (h2 : ∀ p q r s, p < n → q < n → r < n → s < n → get2 n two s r q p = (get2 n two p q r s).conj)
+    (hok : jwInteractionOpOk tol n const one two = true) (m x : Nat) :
+    GV.coeff (applyOp .qubit (jwInteractionOp tol n const one two) [m]) [x]
+      = GV.coeff (applyOp .fermion (Spec.C04.interactionOp n const one two) [m]) [x] :=
+  jwInteractionOp_sound tol n const one two h1 (Kc_herm_of_elementwise n two h2) hok m x
 
 /-- **`jordan_wigner(DiagonalCoulombHamiltonian)` is sound**: for every `n`, Hermitian `T` and symmetric `V`
 (as stored in the object) the strings written out by `_jordan_wigner_diagonal_coulomb_hamiltonian` act like
@@ -245,7 +260,8 @@ example : jwTwoBodyOk Generated.eqTolerance 4 1 0 3 ⟨mkRat 3 4, -2⟩ = true
     ∧ jwTwoBodyOk Generated.eqTolerance 3 1 1 3 ⟨-1, 0⟩ = true := by
   decide +kernel
 
-/-- a complex Hermitian 2-orbital InteractionOperator satisfying all hypotheses of `jw_interaction_op_sound` -/
+/-- a complex Hermitian 2-orbital InteractionOperator satisfying all hypotheses of
+`jw_interaction_op_sound_elementwise` -/
 example :
     let one : List GQ := [⟨1, 0⟩, ⟨1, 1⟩, ⟨1, -1⟩, ⟨-2, 0⟩]
     let two : List GQ := [0, 0, 0, 0, 0, ⟨0, 1⟩, ⟨mkRat 3 2, 0⟩, 0, 0, ⟨mkRat 1 2, 0⟩, ⟨0, -1⟩, 0, 0, 0, 0, 0]
@@ -264,6 +280,37 @@ example :
     have : s = 0 ∨ s = 1 := by omega
     rcases ‹p = 0 ∨ _› with rfl | rfl <;> rcases ‹q = 0 ∨ _› with rfl | rfl <;>
       rcases ‹r = 0 ∨ _› with rfl | rfl <;> rcases ‹s = 0 ∨ _› with rfl | rfl <;> decide +kernel
+
+/-- a Hermitian 2-orbital InteractionOperator in NON-canonical storage — `two[0,1,1,0] = 3/2 + i` and
+`two[1,0,1,0] = i` (the imaginary weight cancels between the antisymmetry-related entries, the antisymmetrised
+entry is the real `3/2`), plus a junk entry `two[0,0,1,0] = 7 + 3i` on which the operator does not depend:
+the tensor is not Hermitian element by element, yet satisfies the (operator-level) hypotheses of
+`jw_interaction_op_sound` -/
+example :
+    let one : List GQ := [⟨1, 0⟩, ⟨1, 1⟩, ⟨1, -1⟩, ⟨-2, 0⟩]
+    let two : List GQ := [0, 0, ⟨7, 3⟩, 0, 0, 0, ⟨mkRat 3 2, 1⟩, 0, 0, 0, ⟨0, 1⟩, 0, 0, 0, 0, 0]
+    (∀ p q, p < 2 → q < 2 → get1 2 one q p = (get1 2 one p q).conj)
+    ∧ (∀ p q r s, p < 2 → q < 2 → r < 2 → s < 2 →
+        get2 2 two r s p q - get2 2 two s r p q - get2 2 two r s q p + get2 2 two s r q p
+          = (get2 2 two p q r s - get2 2 two q p r s - get2 2 two p q s r + get2 2 two q p s r).conj)
+    ∧ ¬ (∀ p q r s, p < 2 → q < 2 → r < 2 → s < 2 → get2 2 two s r q p = (get2 2 two p q r s).conj)
+    ∧ jwInteractionOpOk Generated.eqTolerance 2 ⟨mkRat 1 2, 0⟩ one two = true := by
+  refine ⟨?_, ?_, ?_, by decide +kernel⟩
+  · intro p q hp hq
+    have : p = 0 ∨ p = 1 := by omega
+    have : q = 0 ∨ q = 1 := by omega
+    rcases ‹p = 0 ∨ _› with rfl | rfl <;> rcases ‹q = 0 ∨ _› with rfl | rfl <;> decide +kernel
+  · intro p q r s hp hq hr hs
+    have : p = 0 ∨ p = 1 := by omega
+    have : q = 0 ∨ q = 1 := by omega
+    have : r = 0 ∨ r = 1 := by omega
+    have : s = 0 ∨ s = 1 := by omega
+    rcases ‹p = 0 ∨ _› with rfl | rfl <;> rcases ‹q = 0 ∨ _› with rfl | rfl <;>
+      rcases ‹r = 0 ∨ _› with rfl | rfl <;> rcases ‹s = 0 ∨ _› with rfl | rfl <;> decide +kernel
+  · intro h
+    have := h 0 0 1 0 (by omega) (by omega) (by omega) (by omega)
+    revert this
+    decide +kernel
 
 /-- exact-regime hypothesis of `jw_dch_sound` on a concrete 3-orbital Hamiltonian (complex hopping) -/
 example : jwDCHOk Generated.eqTolerance 3 ⟨mkRat 3 4, 0⟩
